@@ -213,3 +213,79 @@ package main
 //@   loop 1:
 //@     invariant bounds: 0 <= i && i <= end && end == len(buf)
 //@     decreases end - i
+
+// ---------------------------------------------------------------------------------------------
+// gen_ftype.go: FType -> Go type text (C15, printer half).  go_type is the documented mapping
+// (/verif/specs/types.spec); the function-typed parameter toGo is a total function.
+// ---------------------------------------------------------------------------------------------
+
+//@ func fargs
+//@   props C15
+//@   requires nonempty: len(ft.Targets) >= 1
+//@   panics never
+//@   ensures len: len(result) == len(ft.Targets) - 1
+//@   ensures elems: forall k int :: 0 <= k && k < len(ft.Targets) - 1 ==> result[k] == ft.Targets[k]
+
+//@ func freturn
+//@   props C15
+//@   panics iff len(ft.Targets) == 0
+//@   returns ft.Targets[len(ft.Targets) - 1]
+
+//@ func funcTypeToGo
+//@   props C15
+//@   ghost M []string          -- the mapped argument types
+//@   panics iff len(ft.Targets) == 0
+//@   ensures text: result == "func (" + join_prefix(M, ",", len(ft.Targets) - 1) + ")" + ite(is(FType_FUnit, ft.Targets[len(ft.Targets) - 1]), "", " " + toGo(ft.Targets[len(ft.Targets) - 1]))
+//@   ensures mapped: forall k int :: 0 <= k && k < len(ft.Targets) - 1 ==> M[k] == toGo(ft.Targets[k])
+//@   at after call slice.Map#0: M = ret
+
+//@ func tArgsToGo
+//@   props C15
+//@   ghost M []string
+//@   panics never
+//@   ensures text: result == ite(len(targs) == 0, "", "[" + join_prefix(M, ", ", len(targs)) + "]")
+//@   ensures mapped: forall k int :: 0 <= k && k < len(targs) ==> M[k] == tGo(targs[k])
+//@   at after call slice.Map#0: M = ret
+
+//@ func recordTypeToGo
+//@   props C15
+//@   ghost M []string
+//@   panics never
+//@   ensures text: result == frec.Name + ite(len(frec.Targs) == 0, "", "[" + join_prefix(M, ", ", len(frec.Targs)) + "]")
+//@   ensures mapped: forall k int :: 0 <= k && k < len(frec.Targs) ==> M[k] == tGo(frec.Targs[k])
+//@   at after call tArgsToGo#0: M = c_M
+
+//@ func fUnionToGo
+//@   props C15
+//@   ghost M []string
+//@   panics never
+//@   ensures text: result == ut.Name + ite(len(ut.Targs) == 0, "", "[" + join_prefix(M, ", ", len(ut.Targs)) + "]")
+//@   ensures mapped: forall k int :: 0 <= k && k < len(ut.Targs) ==> M[k] == tGo(ut.Targs[k])
+//@   at after call tArgsToGo#0: M = c_M
+
+//@ func fSliceToGo
+//@   props C15
+//@   panics never
+//@   returns "[]" + toGo(fs.ElemType)
+
+//@ func fTupleToGo
+//@   props C15
+//@   ghost M []string
+//@   panics never
+//@   ensures text: result == "frt.Tuple" + fmtverb("d", len(ft.ElemTypes)) + "[" + join_prefix(M, ", ", len(ft.ElemTypes)) + "]"
+//@   ensures mapped: forall k int :: 0 <= k && k < len(ft.ElemTypes) ==> M[k] == toGo(ft.ElemTypes[k])
+//@   at after call slice.Map#0: M = ret
+
+//@ func fpToGo
+//@   props C15
+//@   ghost M []string
+//@   panics never
+//@   ensures text: result == pt.Name + ite(len(pt.Targs) == 0, "", "[" + join_prefix(M, ", ", len(pt.Targs)) + "]")
+//@   ensures mapped: forall k int :: 0 <= k && k < len(pt.Targs) ==> M[k] == tToGo(pt.Targs[k])
+//@   at after call slice.Map#0: M = ret
+
+//@ func FTypeToGo
+//@   props C15
+//@   panics may
+//@   returns go_type(ft)
+//@   note recursion through the function-typed parameter: the function's own contract is the induction hypothesis (partial correctness; structural recursion on a finite FType value)
